@@ -8,8 +8,8 @@ package main
 import "verif/exech/driver"
 
 func main() {
-	q := []driver.ProbeConfig{driver.CfgDefault, driver.CfgWorker1, driver.CfgWorker2}
-	t := []driver.ProbeConfig{driver.CfgDefault, driver.CfgWorker1, driver.CfgWorker2, driver.CfgFollowSchema, driver.CfgFuncSyntax}
+	q := []driver.ProbeConfig{driver.CfgDefault, driver.CfgWorker1, driver.CfgWorker2, driver.CfgRenamedRoots}
+	t := []driver.ProbeConfig{driver.CfgDefault, driver.CfgWorker1, driver.CfgWorker2, driver.CfgRenamedRoots, driver.CfgFollowSchema, driver.CfgFuncSyntax}
 	driver.SchedCheck("C06", q, t, map[string]int{"quick": 3, "thorough": 4}, []string{
 		"scheduling points: every resolver call (a yield inside the universal resolver), lock acquisitions, WaitGroup waits, atomics, channel operations, semaphore operations of the instrumented generated code and runtime",
 		"memory-level data races are invisible to a cooperative scheduler; they are the subject of the separate free-running -race pass (not the deciding step)",
